@@ -19,7 +19,7 @@ const char *C01_CLASSES[] = {"launch-count", "not-all-terminated", "done-count",
                              "termination-cause", "task-nesting", "launch",
                              "buffer-overflow", "nontermination", "packet-never-ends", nullptr};
 const char *C03_CLASSES[] = {"handover", "neighbour-table", "copy-structure",
-                             "estimator-mismatch", "outcome-mismatch",
+                             "estimator-mismatch", "outcome-mismatch", "copy-state",
                              "position-mismatch", nullptr};
 
 bool in_list(const char **list, const std::string &s) {
@@ -78,8 +78,16 @@ void reference_check(Ledger &L, int iloop) {
       int in_dir = TRAVELDIRECTION_INSIDE;
       outcome = -1;
       hops = 0;
-      for (int hop = 0; hop < 1000000; ++hop, ++hops) {
+      for (int hop = 0; hop < 20000000; ++hop, ++hops) {
         const int d = (int)ref.interact(p, in_dir);
+        if (getenv("EION_DEBUG_ID") &&
+            (uint64_t)atol(getenv("EION_DEBUG_ID")) == s.id && hop < 6)
+          fprintf(stderr, "  hop %d in_dir %d -> out %d pos(cells) %.6f %.6f %.6f tau_left %.6g\n",
+                  hop, in_dir, d,
+                  (p.get_position()[0] - c.anchor[0]) / L.lay.cell[0],
+                  (p.get_position()[1] - c.anchor[1]) / L.lay.cell[1],
+                  (p.get_position()[2] - c.anchor[2]) / L.lay.cell[2],
+                  p.get_target_optical_depth());
         if (d == TRAVELDIRECTION_INSIDE) {
           outcome = 0;
           break;
@@ -98,6 +106,22 @@ void reference_check(Ledger &L, int iloop) {
         L.stats["reference_wraps"]++;
       }
     };
+    if (getenv("EION_DEBUG_ID") &&
+        (uint64_t)atol(getenv("EION_DEBUG_ID")) == s.id) {
+      long g[3];
+      for (int k = 0; k < 3; ++k)
+        g[k] = (long)std::floor((s.pos[k] - c.anchor[k]) / L.lay.cell[k] + 0.5);
+      for (long dx = -1; dx <= 0; ++dx)
+        for (long dy = -1; dy <= 0; ++dy)
+          for (long z = 0; z < c.ncell[2]; ++z) {
+            long gx = g[0] + dx, gy = g[1] + dy;
+            if (gx < 0 || gy < 0)
+              continue;
+            size_t gi = (size_t)((gx * c.ncell[1] + gy) * c.ncell[2] + z);
+            fprintf(stderr, "  column (%ld,%ld) z=%ld tau_cell=%g xH=%g\n", gx, gy, z,
+                    L.snap_density[gi] * L.snap_xH[gi] * s.sigma[ION_H_n] * L.lay.cell[2], L.snap_xH[gi]);
+          }
+    }
     trace(s.pos, s.weight);
     // A packet that starts on (within round-off of) an open box wall is either
     // traced or leaves at once, depending on how its position rounds relative
@@ -141,13 +165,13 @@ void reference_check(Ledger &L, int iloop) {
       }
     }
     if (getenv("EION_DEBUG")) {
-      fprintf(stderr, "seg it=%d id=%llu start(cells)=%.12f %.12f %.12f dir=%.6f %.6f %.6f tau=%.6g sys=%d end=%.12f %.12f %.12f ref=%d end=%.12f %.12f %.12f hops=%ld\n",
+      fprintf(stderr, "seg it=%d id=%llu start(cells)=%.12f %.12f %.12f dir=%.6f %.6f %.6f tau=%.6g sys=%d end=%.12f %.12f %.12f ref=%d end=%.12f %.12f %.12f hops=%ld tau_left=%g sigH=%g\n",
               iloop, (unsigned long long)s.id,
               (s.pos[0] - c.anchor[0]) / L.lay.cell[0], (s.pos[1] - c.anchor[1]) / L.lay.cell[1], (s.pos[2] - c.anchor[2]) / L.lay.cell[2],
               s.dir[0], s.dir[1], s.dir[2], s.tau, s.outcome,
               (s.end_pos[0] - c.anchor[0]) / L.lay.cell[0], (s.end_pos[1] - c.anchor[1]) / L.lay.cell[1], (s.end_pos[2] - c.anchor[2]) / L.lay.cell[2],
               outcome,
-              (p.get_position()[0] - c.anchor[0]) / L.lay.cell[0], (p.get_position()[1] - c.anchor[1]) / L.lay.cell[1], (p.get_position()[2] - c.anchor[2]) / L.lay.cell[2], hops);
+              (p.get_position()[0] - c.anchor[0]) / L.lay.cell[0], (p.get_position()[1] - c.anchor[1]) / L.lay.cell[1], (p.get_position()[2] - c.anchor[2]) / L.lay.cell[2], hops, p.get_target_optical_depth(), s.sigma[ION_H_n]);
     }
     if (s.outcome < 0) {
       L.fail("outcome-mismatch",
@@ -425,6 +449,16 @@ public:
           c.ncell[k] = c.nsub[k];
         c.sides[k] = std::ldexp(1., 50 + (int)r.range(0, 2));
         c.anchor[k] = -std::ldexp((double)r.range(0, 8), 47);
+      }
+      if (r.chance(0.5)) {
+        // cubic cells: lattice directions pass exactly through cell corners
+        for (int k = 1; k < 3; ++k) {
+          c.sides[k] = c.sides[0];
+          c.ncell[k] = c.ncell[0];
+          if (c.ncell[k] % c.nsub[k] != 0)
+            c.nsub[k] = c.nsub[0];
+        }
+        c.special = r.chance(0.7) ? 0.2 : 0.;
       }
     } else {
       const double pc = 3.0856775814913673e16;
